@@ -46,6 +46,15 @@ func GenSpec(t *rapid.T) WorldSpec {
 	spec := genSpecBase(t, n)
 	// mostly active from genesis; sometimes the three gated functions become active only at a later epoch
 	spec.ActivationEpoch = rapid.SampledFrom([]uint32{0, 0, 0, 0, 1, 2, 3}).Draw(t, "activation")
+	// sometimes the factory hears of a schedule change before it builds the container (accepted, or one with a hole)
+	switch rapid.IntRange(0, 7).Draw(t, "gas-before-create") {
+	case 0:
+		spec.GasBeforeCreate = DistinctGas(7)
+	case 1:
+		g := DistinctGas(3)
+		delete(g[refBuiltInCostSection], "ESDTNFTBurn")
+		spec.GasBeforeCreate = g
+	}
 	return spec
 }
 
@@ -248,6 +257,20 @@ func (g *Gen) issueAmount(label string) []byte {
 }
 
 // dest picks a destination relative to the sender: any holder, biased to "other account".
+// other returns a holder address that is certainly different from the given one.
+func (g *Gen) other(label string, from []byte) []byte {
+	d := g.dest(label, from)
+	if !bytes.Equal(d, from) {
+		return d
+	}
+	for _, h := range g.holders {
+		if !bytes.Equal(h, from) {
+			return h
+		}
+	}
+	return d
+}
+
 func (g *Gen) dest(label string, from []byte) []byte {
 	for i := 0; i < 3; i++ {
 		d := g.addr(label)
@@ -327,7 +350,11 @@ func (g *Gen) gasFor(c *Call) {
 		c.Gas = 1 << 63
 	}
 	if refIsSC(c.Caller) {
-		c.GasLocked = pickFrom(g, "gaslocked", []uint64{0, 0, 17})
+		// what a contract's asynchronous call keeps aside for its callback: not part of GasProvided, any size
+		c.GasLocked = pickFrom(g, "gaslocked", []uint64{0, 0, 17, charge + 1, 30_000_000, 1 << 32, 1 << 63, ^uint64(0)})
+		if c.GasLocked > charge {
+			g.Shape = append(g.Shape, "gaslocked>charge")
+		}
 	}
 }
 
@@ -551,6 +578,13 @@ func (g *Gen) byKind(kind string) Op {
 			h := hs[g.pick("freeze-h", len(hs))]
 			rcv, token = h.addr, h.token
 		}
+		if hs := g.holdings("N"); kind == "freeze" && len(hs) > 0 && g.pick("freeze-single-nft", 3) == 0 {
+			// the system contract's freezeSingleNFT (wipeSingleNFT follows through the frozen entry): identifier and
+			// nonce composed into ONE argument
+			h := hs[g.pick("freeze-nft-h", len(hs))]
+			rcv, token = h.addr, []byte(h.suffix)
+			g.Shape = append(g.Shape, "freeze-composed-key")
+		}
 		return callOp(g.sysCall(g.shard(rcv), fn, rcv, token))
 	case "pause", "unpause":
 		fn := refBuiltInFunctionESDTPause
@@ -580,7 +614,8 @@ func (g *Gen) byKind(kind string) Op {
 			return g.byKind("setrole")
 		}
 		p := cands[g.pick("handover-pick", len(cands))]
-		next := g.dest("handover-next", p[0])
+		// the system contract refuses a hand-over whose new owner is the current one (N6)
+		next := g.other("handover-next", p[0])
 		g.Shape = append(g.Shape, "handover")
 		return callOp(g.sysCall(g.shard(p[0]), refBuiltInFunctionESDTNFTCreateRoleTransfer, p[0], p[1], next))
 	case "seedhandover":
@@ -600,7 +635,9 @@ func (g *Gen) byKind(kind string) Op {
 		rcv := g.addr("seed-rcv")
 		ext := bytes.Repeat([]byte{0x99}, 32)
 		ext[31] = byte((g.shard(rcv) + 1) % m.NShards)
-		cnt := pickFrom(g, "seed-counter", []uint64{0, 1, 254, 255, 256, 65535, 1<<32 - 1, 1 << 32, 1 << 63})
+		// counters whose successors sit on byte-length boundaries, or contain a byte that means something elsewhere
+		// ('-' 0x2d separates ticker and random part of an identifier, '@' 0x40 separates arguments)
+		cnt := pickFrom(g, "seed-counter", []uint64{0, 1, 254, 255, 256, 65535, 1<<32 - 1, 1 << 32, 1 << 63, 0x012c, 0x2d2c, 0x013f, 0x2d00, 0x4000})
 		g.Layer = "sys"
 		return Op{Kind: "seed-handover", Call: &Call{Fn: refBuiltInFunctionESDTNFTCreateRoleTransfer, Caller: ext, Rcv: cp(rcv), Args: hbs(tok, beNonce(cnt))}}
 	case "deliver":
